@@ -88,6 +88,9 @@ STAGES = {
     'windowed-0': (lambda i: i.windowed(0), lambda it: windowed_iter(it, 0)),      # degenerate sizes: nothing comes out
     'limit-0': (lambda i: i.limit(0), lambda it: islice(it, 0)),
     'split-2': (lambda i: i.split(sep=2), lambda it: split_iter(it, sep=2)),
+    'split-0': (lambda i: i.split(sep=0), lambda it: split_iter(it, sep=0)),      # a falsy separator is still a separator
+    'split-2-max1': (lambda i: i.split(sep=2, maxsplit=1), lambda it: split_iter(it, sep=2, maxsplit=1)),
+    'split-none': (lambda i: i.split(), lambda it: split_iter(it)),
     'unique': (lambda i: i.unique(), lambda it: unique_iter(it)),
     'unique-mod3': (lambda i: i.unique(mod3), lambda it: unique_iter(it, key=mod3)),
     'flatten': (lambda i: i.flatten(), lambda it: chain.from_iterable(it)),
